@@ -335,8 +335,9 @@ def attr_docs(seed, n):
 class C07(Check):
     rule = DOC_RULE + "; plus a soup weighted on quotes, angle brackets and ampersands in every text-bearing position (alt, title, destination, info string, label, code, autolink)"
     obligations = [("main", "C07final", "C07_final"), ("main", "SafeW", "C07_render_safeW"), ("main", "Safe", "C07_render_safe"), ("main", "L2BndS", "parseBlocks_bounds"),
-                   ("main", "L2Kind", "parseBlocks_kinds")]
-    assumptions = ["C07_final is the property's statement on the model for every input; C07_render_safeW covers every tree whose leaves satisfy bokW, and the run evaluates bokW on the implementation's own trees, so the theorem applies to each of them given the renderer tie",
+                   ("main", "L2Kind", "parseBlocks_kinds"), ("main", "TieAtoms", "tie_atoms"), ("main", "TieAtoms", "render_atoms_in_vocab")]
+    assumptions = ["the fixed vocabulary of the model (Safe.tagVocab ++ voidVocab) is tied to /repo's source on every run: the atom constants mentioned by preBlock/preInline, regenerated by go/gen, are exactly that vocabulary, and those of postBlock/postInline exactly its non-void part (TieAtoms.tie_atoms, render_atoms_in_vocab)",
+                   "C07_final is the property's statement on the model for every input; C07_render_safeW covers every tree whose leaves satisfy bokW, and the run evaluates bokW on the implementation's own trees, so the theorem applies to each of them given the renderer tie",
                    "the oracle's grammar is stricter than the Coq predicate 'safe' (it also requires every '&' to head a character reference)"]
 
     def jobs(self, seed, tier):
@@ -358,7 +359,7 @@ reg(C07("C07"))
 # ---- C10 -----------------------------------------------------------------------------------------
 class C10(Check):
     rule = DOC_RULE + "; each document under one of the 30 configurations (3 soft-break behaviours x IgnoreRaw x {nil, GFM, always, never, name set}) in rotation"
-    obligations = [("main", "TieRender", "tie_render"), ("main", "RenderWalkProof", "C10_appendBlock"), ("main", "WalkG", "walk_is_spec"), ("main", "C10misc", "render_refdef_empty"), ("main", "C10misc", "render_silent_inline"),
+    obligations = [("main", "TieRender", "tie_render"), ("main", "TieAtoms", "tie_atoms"), ("main", "RenderWalkProof", "C10_appendBlock"), ("main", "WalkG", "walk_is_spec"), ("main", "C10misc", "render_refdef_empty"), ("main", "C10misc", "render_silent_inline"),
                    ("main", "Entry", "renderDoc_renderRoots")]
     assumptions = ["the independent reading of the tree is the structural renderer renderB of the model (one clause per kind, accessor models); C10_appendBlock proves that Walk with the renderer's callbacks equals it; the run applies it to the implementation's own tree dump",
                    "determinism, tree/Source untouched, block joining and empty output for definitions are observed on the implementation by the oracle (pure model cannot exhibit mutation)"]
@@ -884,8 +885,8 @@ class C15(Check):
                    ("main", "Rec17", "parseCodeFence_sound"), ("main", "Rec17", "parseCodeFence_complete"), ("main", "Rec17", "parseCodeFence_none"),
                    ("main", "Rec18", "email_iff"), ("main", "Rec18", "isEmailAddress_iff"),
                    ("main", "Rec19", "normalizeURI_alphabet"), ("main", "Rec19", "normalizeURI_idempotent"), ("main", "Rec19", "normalizeURI_fix"),
-                   ("main", "TieClassify", "tie_classifiers"), ("main", "TieBlocks", "tie_blocks"), ("main", "TieRender", "tie_render")]
-    assumptions = ["every clause has its theorem on the model (recognizers = declarative definitions on every line; classifiers over all 256 bytes by computation; e-mail grammar; URI alphabet, well-formed escapes, idempotence); the byte classifiers' bodies and the constants are regenerated from /repo's source on every run (TieClassify, TieBlocks, TieRender), the recognizers are tied by the correspondence through the verif hook",
+                   ("main", "TieClassify", "tie_classifiers"), ("main", "TieBlocks", "tie_blocks"), ("main", "TieRender", "tie_render"), ("main", "TieAtoms", "tie_atoms")]
+    assumptions = ["the 62 tag names of HTML-block start condition 6 (built in /repo from atom.X.String() calls) are regenerated on every run and proved equal to the model's list (TieAtoms.tie_atoms)", "every clause has its theorem on the model (recognizers = declarative definitions on every line; classifiers over all 256 bytes by computation; e-mail grammar; URI alphabet, well-formed escapes, idempotence); the byte classifiers' bodies and the constants are regenerated from /repo's source on every run (TieClassify, TieBlocks, TieRender), the recognizers are tied by the correspondence through the verif hook",
                    "the ATX recognizer of the main model is characterised exactly, for every line: atx_impl_exact (= the CommonMark definition with the implementation's extra rule that a blank after an odd run of backslashes is kept), atx_C15_fine / atx_C15_fine_converse (it agrees with the CommonMark definition on precisely the lines outside the class escTail), atx_D22_refuted (the finding D22 as a theorem, witness '# foo\\ '); parseATXHeading_correct of coq/recog is the same statement for the recognizer without the extra rule"]
 
     def jobs(self, seed, tier):
